@@ -11,11 +11,12 @@ branch(): builds a value p/q (optionally negated, or NaN) and branches on it wit
 """
 from . import parsegen as P
 
-HEARTS = ["♥", "❤", "💕", "💖"]
+ALL_HEARTS = ["♥", "❤", "💕", "💖", "💗", "💘", "💙", "💚", "💛", "💜", "💝"]
 
 
 def scripted(rng, with_read=None, mode=None):
     mode = mode or rng.choice(["mixed", "mixed", "same-heart", "two-hearts"])
+    HEARTS = rng.sample(ALL_HEARTS, 3)                                    # a palette of three of the eleven coloured hearts per program
     n_dec = rng.choice([3, 5, 8, 12, 16])
     decisions = [rng.choice([0, 0, 5]) for _ in range(n_dec)]          # 0 -> left branch (0 < 3), 5 -> right (5 < 3 false)
     prog = []
@@ -32,7 +33,7 @@ def scripted(rng, with_read=None, mode=None):
             left, right = rng.sample(HEARTS[:3], 2)
         elif mode == "same-heart":
             # every command carries the same label and returns through the white heart: loops made of white-heart jumps only
-            left, right = "♥", rng.choice(["♡", "♡", ""])
+            left, right = HEARTS[0], rng.choice(["♡", "♡", ""])
         else:
             left = rng.choice(HEARTS[:3] + ["♡", "♡", ""])
             right = rng.choice(HEARTS[:3] + ["♡", "", "", ""])
@@ -56,7 +57,7 @@ def branch(rng):
         prog += ["형" + "." * p if p else "형", "형" + "." * q, "흡.......", "하앗..."]   # p, q -> 1/q (copy to stack 7) -> p/q
         if neg:
             prog.append("흣.......")                                     # negate in place (sum to stack 7)
-    lh, rh = rng.choice(["❤", "❤", ""]), rng.choice(["♥", "♥", ""])     # left heart: branch taken, right heart: not taken
+    lh, rh = rng.choice(ALL_HEARTS[1:] + [""] * 5), rng.choice(["♥", "♥", ""])     # left heart: branch taken, right heart: not taken
     if op == "?" and rng.random() < 0.6:
         # 형 with c dots pushes the count c itself; `?(_, ?(L, R))`: the first ? pops that count (never below itself), the
         # second pops the value and compares it with c — any count, including 0
@@ -67,4 +68,41 @@ def branch(rng):
         c = rng.choice([3, 4, 5, 6])
         prog.append("흑" + "." * c + lh + op + rh)
     prog += ["형" + "." * 66, "항."]
+    return " ".join(prog)
+
+
+def bigarith(rng, max_sq=None):
+    """Arithmetic on multi-limb values: a small base squared k times (흑... duplicates, 하앗... multiplies: b^(2^k), beyond 2^32
+    from k = 3 on), a second base, then a random mix of reciprocals, negations, sums and products — fractions whose numerator is
+    shorter than the denominator and the other way round, equal operands, opposite operands — ending with comparisons against a
+    count and an attempt to print (a diagnosed encoding error for anything that is not a scalar value)."""
+    def power(b, k):
+        return ["형" + "." * b] + ["흑...", "하앗..."] * k
+    k1 = rng.choice([2, 3, 3, 4] if max_sq is None else list(range(2, max_sq + 1)))
+    prog = power(rng.choice([2, 3, 7, 10, 16, 16, 255, 256] if k1 <= 3 else [2, 3, 7, 16]), k1)
+    if rng.random() < 0.7:
+        prog += power(rng.choice([2, 3, 5, 16, 17]), rng.choice([0, 1, 2, 3]))
+    ops = ["흡...",            # reciprocal of the top value (leaves two copies of it)
+           "흣...",            # negation of the top value (two copies)
+           "하앙...",          # sum of the two top values
+           "하앗...",          # product of the two top values
+           "흑...",            # duplicate
+           "흐읍...",          # reciprocals of two values and their product
+           "흐읏...",          # negations of two values and their sum
+           "형.", "형", "형...",
+           "항.......",        # move the top value away (to stack 7)
+           ]
+    for _ in range(rng.choice([2, 3, 4, 6, 8])):
+        prog.append(rng.choice(ops))
+    r = rng.random()
+    if r < 0.35:
+        c = rng.choice([0, 1, 2, 5])
+        prog.append("형" + "." * c + "?♥?❤")               # compare the two top values (the count itself first) with the count
+        prog += ["형" + "." * 66, "항."]
+    elif r < 0.7:
+        prog.append("항.")                                  # print: an unencodable value ends the run with a diagnostic
+    elif r < 0.85:
+        prog.append("항..")
+    else:
+        prog += ["흑....!💕", "형" + "." * 67, "항."]
     return " ".join(prog)
